@@ -5,6 +5,12 @@ import json, os, subprocess, sys, time
 def sh(cmd, **kw):
     return subprocess.run(cmd, shell=True, capture_output=True, text=True, **kw)
 
+# by default the patch is applied to /repo itself and the checks of /verif are run; with SEED_REPO / SEED_VERIF set, a private
+# snapshot of both is used instead (exactpack is then imported from the snapshot through PYTHONPATH) so that /repo stays free
+REPO = os.environ.get("SEED_REPO", "/repo")
+VERIF = os.environ.get("SEED_VERIF", "/verif")
+PRE = ("PYTHONPATH=%s " % REPO) if REPO != "/repo" else ""
+
 args = sys.argv[1:]
 tier = "quick"
 if "--tier" in args:
@@ -13,13 +19,13 @@ allchecks = "--all-checks" in args
 args = [a for a in args if not a.startswith("--")]
 man = json.load(open("/verif/MANIFEST.json"))
 claimed = [c["property_id"] for c in man["checks"]]
-assert sh("git -C /repo status --porcelain").stdout.strip() == "", "/repo not clean"
+assert sh("git -C %s status --porcelain" % REPO + "").stdout.strip() == "", "/repo not clean"
 for a in args:
     name, _, props = a.partition(":")
     d = "/verif/seeded/" + name
     meta = json.load(open(d + "/meta.json"))
     props = props.split(",") if props else ([meta["property"]] if not allchecks else claimed)
-    r = sh("git -C /repo apply %s/patch.diff" % d)
+    r = sh("git -C %s apply %s/patch.diff" % (REPO, d))
     if r.returncode != 0:
         print(name, "PATCH DOES NOT APPLY", r.stderr[:200]); continue
     det = {}
@@ -28,15 +34,15 @@ for a in args:
             if p not in claimed:
                 det[p] = {"status": "no check"}; continue
             t0 = time.time()
-            r = sh("cd /verif && ./check %s --tier %s" % (p, tier))
+            r = sh("cd %s && %s./check %s --tier %s" % (VERIF, PRE, p, tier))
             viol = [l for l in r.stdout.splitlines() if l.startswith("VIOLATION")]
             det[p] = {"exit": r.returncode, "violations": [v[:220] for v in viol[:6]], "wall_s": round(time.time() - t0, 1)}
             print(name, p, "exit", r.returncode, "DETECTED" if r.returncode == 1 and viol else "missed", viol[0][60:200] if viol else "")
     finally:
-        sh("git -C /repo checkout -- . && git -C /repo clean -fdq exactpack")
+        sh("git -C %s checkout -- . && git -C %s clean -fdq exactpack" % (REPO, REPO))
     old = {}
     if os.path.exists(d + "/detection.json"):
         old = json.load(open(d + "/detection.json"))
     old.update(det)
     json.dump(old, open(d + "/detection.json", "w"), indent=1)
-assert sh("git -C /repo status --porcelain").stdout.strip() == "", "/repo not clean after run"
+assert sh("git -C %s status --porcelain" % REPO + "").stdout.strip() == "", "/repo not clean after run"
